@@ -24,40 +24,65 @@ theorem ghostAt_snoc (g : Hash) (tr : List GEvent) (e : Event) (g' : Hash) : gho
 theorem applyAll_snoc (db : Db) (es : List Event) (e : Event) : applyAll db (es ++ [e]) = apply (applyAll db es) e := by
   unfold applyAll; simp
 
-/-- the emitter state is consistent with its log, every prefix of the log is a good image, and the current image
-    satisfies the invariant -/
-structure Good (ar : Bool) (db₀ : Db) (g₀ : Hash) (s : Em) : Prop where
-  trace : TraceOK ar db₀ g₀ s.log = true
+/-- the emitter state is consistent with its log, EVERY prefix of the log is an image that satisfies the invariant (with
+    the ghost head of that prefix), and so does the current image -/
+structure Good (ar : Bool) (V : Hash → Hdr → Prop) (db₀ : Db) (g₀ : Hash) (s : Em) : Prop where
+  all : ∀ p, p <+: s.log → Inv ar V (applyAll db₀ (p.map (·.1))) (ghostAt g₀ p)
   dbEq : s.db = applyAll db₀ (s.log.map (·.1))
   ghost : ghostAt g₀ s.log = s.head
-  inv : Inv ar s.db s.head
+  inv : Inv ar V s.db s.head
 
-variable {ar : Bool} {db₀ : Db} {g₀ : Hash}
+variable {ar : Bool} {V : Hash → Hdr → Prop} {db₀ : Db} {g₀ : Hash}
 
-theorem good_emitHead {s : Em} (hg : Good ar db₀ g₀ s) (e : Event) (h : Hash) (hi : Inv ar (apply s.db e) h) :
-    Good ar db₀ g₀ (s.emitHead e h) := by
-  refine ⟨?_, ?_, ?_, hi⟩
-  · show TraceOK ar db₀ g₀ (s.log ++ [(e, h)]) = true
-    rw [traceOK_snoc, hg.trace, Bool.true_and]
+/-- all prefixes good ⇒ the decidable trace predicate -/
+theorem traceOK_of_prefixes : ∀ (tr : List GEvent) (db : Db) (g : Hash),
+    (∀ p, p <+: tr → imageOK ar (applyAll db (p.map (·.1))) (ghostAt g p) = true) → TraceOK ar db g tr = true := by
+  intro tr
+  induction tr with
+  | nil => intro db g h; exact h [] (List.prefix_refl _)
+  | cons x rest ih =>
+    intro db g h
+    obtain ⟨e, g'⟩ := x
+    unfold TraceOK
+    rw [Bool.and_eq_true]
+    refine ⟨h [] (List.nil_prefix), ih (apply db e) g' ?_⟩
+    intro p hp
+    have := h ((e, g') :: p) (List.cons_prefix_cons.mpr ⟨rfl, hp⟩)
+    simpa [applyAll, ghostAt_cons] using this
+
+theorem Good.trace {s : Em} (hg : Good ar V db₀ g₀ s) : TraceOK ar db₀ g₀ s.log = true :=
+  traceOK_of_prefixes _ _ _ (fun p hp => imageOK_of_inv (hg.all p hp))
+
+theorem prefix_snoc {α : Type} {p l : List α} {x : α} (h : p <+: l ++ [x]) : p <+: l ∨ p = l ++ [x] := by
+  obtain ⟨r, hr⟩ := h
+  rcases List.eq_nil_or_concat r with rfl | ⟨r', y, rfl⟩
+  · right; simpa using hr
+  · left
+    have : p ++ r' ++ [y] = l ++ [x] := by simpa [List.append_assoc] using hr
+    have h2 := List.append_inj' this rfl
+    exact ⟨r', h2.1⟩
+
+theorem good_emitHead {s : Em} (hg : Good ar V db₀ g₀ s) (e : Event) (h : Hash) (hi : Inv ar V (apply s.db e) h) :
+    Good ar V db₀ g₀ (s.emitHead e h) := by
+  have hdb : apply s.db e = applyAll db₀ ((s.log ++ [(e, h)]).map (·.1)) := by
     simp only [List.map_append, List.map_cons, List.map_nil]
     rw [applyAll_snoc, ← hg.dbEq]
-    exact imageOK_of_inv hi
-  · show apply s.db e = applyAll db₀ ((s.log ++ [(e, h)]).map (·.1))
-    simp only [List.map_append, List.map_cons, List.map_nil]
-    rw [applyAll_snoc, ← hg.dbEq]
-  · show ghostAt g₀ (s.log ++ [(e, h)]) = h
-    exact ghostAt_snoc _ _ _ _
+  refine ⟨?_, hdb, ghostAt_snoc _ _ _ _, hi⟩
+  intro p hp
+  rcases prefix_snoc (show p <+: s.log ++ [(e, h)] from hp) with hp' | rfl
+  · exact hg.all p hp'
+  · rw [← hdb, ghostAt_snoc]; exact hi
 
-theorem good_emit {s : Em} (hg : Good ar db₀ g₀ s) (e : Event) (hi : Inv ar (apply s.db e) s.head) :
-    Good ar db₀ g₀ (s.emit e) := good_emitHead hg e s.head hi
+theorem good_emit {s : Em} (hg : Good ar V db₀ g₀ s) (e : Event) (hi : Inv ar V (apply s.db e) s.head) :
+    Good ar V db₀ g₀ (s.emit e) := good_emitHead hg e s.head hi
 
 @[simp] theorem emit_db (s : Em) (e : Event) : (s.emit e).db = apply s.db e := rfl
 @[simp] theorem emit_head (s : Em) (e : Event) : (s.emit e).head = s.head := rfl
 @[simp] theorem emitHead_db (s : Em) (e : Event) (h : Hash) : (s.emitHead e h).db = apply s.db e := rfl
 @[simp] theorem emitHead_head (s : Em) (e : Event) (h : Hash) : (s.emitHead e h).head = h := rfl
 
-theorem good_hhdr {s : Em} (hg : Good ar db₀ g₀ s) (h : Hash) : Good ar db₀ g₀ { s with hhdr := h } :=
-  ⟨hg.trace, hg.dbEq, hg.ghost, hg.inv⟩
+theorem good_hhdr {s : Em} (hg : Good ar V db₀ g₀ s) (h : Hash) : Good ar V db₀ g₀ { s with hhdr := h } :=
+  ⟨hg.all, hg.dbEq, hg.ghost, hg.inv⟩
 
 /-! ### keys a step touches -/
 
@@ -96,9 +121,9 @@ theorem linked_of_ctl {db db' : Db} (h : TouchesOnly ctl db db') {P : Hash} {m :
 
 /-! ### emitting lists of events -/
 
-theorem good_emitAll_irrelevant : ∀ (es : List Event) {s : Em}, Good ar db₀ g₀ s →
+theorem good_emitAll_irrelevant : ∀ (es : List Event) {s : Em}, Good ar V db₀ g₀ s →
     (∀ e ∈ es, (∃ k v, e = .put k v ∧ irrelevant k = true) ∨ (∃ k, e = .del k ∧ irrelevant k = true)) →
-    Good ar db₀ g₀ (s.emitAll es) ∧ (s.emitAll es).head = s.head ∧
+    Good ar V db₀ g₀ (s.emitAll es) ∧ (s.emitAll es).head = s.head ∧
       TouchesOnly irrelevant s.db (s.emitAll es).db := by
   intro es
   induction es with
@@ -106,7 +131,7 @@ theorem good_emitAll_irrelevant : ∀ (es : List Event) {s : Em}, Good ar db₀ 
   | cons e rest ih =>
     intro s hg hall
     have he := hall e (by simp)
-    have hg1 : Good ar db₀ g₀ (s.emit e) ∧ TouchesOnly irrelevant s.db (s.emit e).db := by
+    have hg1 : Good ar V db₀ g₀ (s.emit e) ∧ TouchesOnly irrelevant s.db (s.emit e).db := by
       rcases he with ⟨k, v, rfl, hk⟩ | ⟨k, rfl, hk⟩
       · exact ⟨good_emit hg _ (inv_put_irrelevant hg.inv v hk), touchesOnly_put _ v hk⟩
       · exact ⟨good_emit hg _ (inv_del_irrelevant hg.inv hk), touchesOnly_del _ hk⟩
@@ -126,12 +151,16 @@ instance FlushOK.dec : (db : Db) → (flush : List Writes) → Decidable (FlushO
 
 instance (db : Db) (b : Blk) : Decidable (FreshOrSame db b) := by unfold FreshOrSame; infer_instance
 
+def isTd : Key → Bool
+  | .td _ => true
+  | _ => false
+
 def isTrieKey : Key → Bool
   | .node _ | .preimage _ => true
   | _ => false
 
-theorem good_flush : ∀ (flush : List Writes) {s : Em}, Good ar db₀ g₀ s → FlushOK s.db flush →
-    Good ar db₀ g₀ (s.emitAll (flushEventsOf flush)) ∧ (s.emitAll (flushEventsOf flush)).head = s.head ∧
+theorem good_flush : ∀ (flush : List Writes) {s : Em}, Good ar V db₀ g₀ s → FlushOK s.db flush →
+    Good ar V db₀ g₀ (s.emitAll (flushEventsOf flush)) ∧ (s.emitAll (flushEventsOf flush)).head = s.head ∧
       TouchesOnly isTrieKey s.db (s.emitAll (flushEventsOf flush)).db ∧
       (∀ c, (get s.db (.node c)).isSome = true → (get (s.emitAll (flushEventsOf flush)).db (.node c)).isSome = true) := by
   intro flush
@@ -154,10 +183,10 @@ theorem canonAgrees_of_ctl_below {db db' : Db} (h : TouchesOnly ctl db db') {P :
     (hc : CanonAgrees db P m) (hk : ∀ k, k ≤ m → get db' (.canon k) = get db (.canon k)) : CanonAgrees db' P m :=
   canonAgrees_mono (fun x n hd hb => by rw [getBlock_of_ctl h]; exact hb) hc (fun k hkm => canonHash_congr (hk k hkm))
 
-theorem good_insertW (v : Variant) {s : Em} (hg : Good ar db₀ g₀ s) {B : Hash} {m : Nat} {hdB : Hdr}
+theorem good_insertW (v : Variant) {s : Em} (hg : Good ar V db₀ g₀ s) {B : Hash} {m : Nat} {hdB : Hdr}
     (hB : getBlock s.db B (m + 1) = some hdB) (hP : CanonAgrees s.db hdB.parent m)
     (hna : v.atomicInsert = false → ∃ n, blockNumber s.db s.head = some n ∧ n < m + 1) :
-    Good ar db₀ g₀ (insertW v s B (m + 1)) ∧ (insertW v s B (m + 1)).head = B ∧
+    Good ar V db₀ g₀ (insertW v s B (m + 1)) ∧ (insertW v s B (m + 1)).head = B ∧
       TouchesOnly ctl s.db (insertW v s B (m + 1)).db := by
   unfold insertW
   cases hat : v.atomicInsert with
@@ -166,14 +195,14 @@ theorem good_insertW (v : Variant) {s : Em} (hg : Good ar db₀ g₀ s) {B : Has
     simp only [Bool.not_false, if_true]
     -- put canon (above the head)
     have t1 : TouchesOnly ctl s.db (s.emit (.put (.canon (m + 1)) (.ref B))).db := touchesOnly_put _ _ rfl
-    have g1 : Good ar db₀ g₀ (s.emit (.put (.canon (m + 1)) (.ref B))) :=
+    have g1 : Good ar V db₀ g₀ (s.emit (.put (.canon (m + 1)) (.ref B))) :=
       good_emit hg _ (inv_canon_above hg.inv hn hlt (fun k _ hk => get_put_ne _ _ (Ne.symm hk)))
     -- put LastBlock: the head moves
     have hB1 : getBlock (s.emit (.put (.canon (m + 1)) (.ref B))).db B (m + 1) = some hdB := by
       rw [getBlock_of_ctl t1]; exact hB
     have hP1 : CanonAgrees (s.emit (.put (.canon (m + 1)) (.ref B))).db hdB.parent m :=
       canonAgrees_of_ctl_below t1 hP (fun k hk => get_put_ne _ _ (by intro e; injection e with e; omega))
-    have i2 : Inv ar (apply (s.emit (.put (.canon (m + 1)) (.ref B))).db (.put .lastBlock (.ref B))) B :=
+    have i2 : Inv ar V (apply (s.emit (.put (.canon (m + 1)) (.ref B))).db (.put .lastBlock (.ref B))) B :=
       inv_new_head g1.inv hB1 hP1 (by simp [apply, get_put]) (by simp [apply, get_put])
         (fun k _ _ hk2 => get_put_ne _ _ (Ne.symm hk2))
     have g2 := good_emitHead g1 (.put .lastBlock (.ref B)) B i2
@@ -190,13 +219,13 @@ theorem good_insertW (v : Variant) {s : Em} (hg : Good ar db₀ g₀ s) {B : Has
     cases hupd : (canonHash s.db (m + 1) != some B) with
     | false =>
       simp only [Bool.false_eq_true, if_false, List.append_nil]
-      have i1 : Inv ar (apply s.db (.batch [(.canon (m + 1), some (.ref B)), (.lastBlock, some (.ref B))])) B :=
+      have i1 : Inv ar V (apply s.db (.batch [(.canon (m + 1), some (.ref B)), (.lastBlock, some (.ref B))])) B :=
         inv_new_head hg.inv hB hP (by simp [apply, applyW, get_put]) (by simp [apply, applyW, get_put])
           (fun k _ hk1 hk2 => by simp [apply, applyW, get_put, Ne.symm hk1, Ne.symm hk2])
       exact ⟨good_emitHead hg _ B i1, rfl, touchesOnly_batch _ _ (by intro w hw; simp at hw; rcases hw with rfl | rfl <;> rfl)⟩
     | true =>
       simp only [if_true]
-      have i1 : Inv ar (apply s.db (.batch ([(.canon (m + 1), some (.ref B)), (.lastBlock, some (.ref B))] ++
+      have i1 : Inv ar V (apply s.db (.batch ([(.canon (m + 1), some (.ref B)), (.lastBlock, some (.ref B))] ++
           [(.lastHeader, some (.ref B)), (.lastFast, some (.ref B))]))) B :=
         inv_new_head hg.inv hB hP (by simp [apply, applyW, get_put]) (by simp [apply, applyW, get_put])
           (fun k hk0 hk1 hk2 => by
@@ -211,9 +240,9 @@ theorem good_insertW (v : Variant) {s : Em} (hg : Good ar db₀ g₀ s) {B : Has
 theorem blockNumber_of_ctl {db db' : Db} (h : TouchesOnly ctl db db') (x : Hash) : blockNumber db' x = blockNumber db x :=
   blockNumber_congr (h _ rfl)
 
-theorem good_delCanonAbove : ∀ (fuel : Nat) {s : Em} (i : Nat), Good ar db₀ g₀ s →
+theorem good_delCanonAbove : ∀ (fuel : Nat) {s : Em} (i : Nat), Good ar V db₀ g₀ s →
     (∃ n, blockNumber s.db s.head = some n ∧ n < i) →
-    Good ar db₀ g₀ (delCanonAbove fuel s i) ∧ (delCanonAbove fuel s i).head = s.head ∧
+    Good ar V db₀ g₀ (delCanonAbove fuel s i) ∧ (delCanonAbove fuel s i).head = s.head ∧
       TouchesOnly ctl s.db (delCanonAbove fuel s i).db := by
   intro fuel
   induction fuel with
@@ -225,7 +254,7 @@ theorem good_delCanonAbove : ∀ (fuel : Nat) {s : Em} (i : Nat), Good ar db₀ 
     split
     · exact ⟨hg, rfl, TouchesOnly.refl _ _⟩
     · have t1 : TouchesOnly ctl s.db (s.emit (.del (.canon i))).db := touchesOnly_del _ rfl
-      have g1 : Good ar db₀ g₀ (s.emit (.del (.canon i))) :=
+      have g1 : Good ar V db₀ g₀ (s.emit (.del (.canon i))) :=
         good_emit hg _ (inv_canon_above hg.inv hn hlt (fun k _ hk => by
           show get (del s.db (.canon i)) k = get s.db k
           rw [get_del]; simp [Ne.symm hk]))
@@ -234,12 +263,12 @@ theorem good_delCanonAbove : ∀ (fuel : Nat) {s : Em} (i : Nat), Good ar db₀ 
 
 /-! ### the re-pointing loop of `reorg` (atomic insert) -/
 
-theorem good_lookupPuts {s : Em} (hg : Good ar db₀ g₀ s) (h : Hash) (txs : List Nat) :
-    Good ar db₀ g₀ (s.emitAll ((lookupWrites h txs).map fun w => Event.put w.1 (Val.ref h))) ∧
+theorem good_lookupPuts {s : Em} (hg : Good ar V db₀ g₀ s) (h : Hash) (txs : List Nat) :
+    Good ar V db₀ g₀ (s.emitAll ((lookupWrites h txs).map fun w => Event.put w.1 (Val.ref h))) ∧
       (s.emitAll ((lookupWrites h txs).map fun w => Event.put w.1 (Val.ref h))).head = s.head ∧
       TouchesOnly ctl s.db (s.emitAll ((lookupWrites h txs).map fun w => Event.put w.1 (Val.ref h))).db := by
-  have : ∀ (es : List Event) {s : Em}, Good ar db₀ g₀ s → (∀ e ∈ es, ∃ t v, e = .put (.lookup t) v) →
-      Good ar db₀ g₀ (s.emitAll es) ∧ (s.emitAll es).head = s.head ∧ TouchesOnly ctl s.db (s.emitAll es).db := by
+  have : ∀ (es : List Event) {s : Em}, Good ar V db₀ g₀ s → (∀ e ∈ es, ∃ t v, e = .put (.lookup t) v) →
+      Good ar V db₀ g₀ (s.emitAll es) ∧ (s.emitAll es).head = s.head ∧ TouchesOnly ctl s.db (s.emitAll es).db := by
     intro es
     induction es with
     | nil => intro s hg _; exact ⟨hg, rfl, TouchesOnly.refl _ _⟩
@@ -257,9 +286,9 @@ theorem good_lookupPuts {s : Em} (hg : Good ar db₀ g₀ s) (h : Hash) (txs : L
   exact ⟨t, _, rfl⟩
 
 theorem good_reinsertAll (v : Variant) (hat : v.atomicInsert = true) (xTxs : Hash → Option (List Nat)) :
-    ∀ (chain : List (Hash × Hdr)) {s : Em} (P : Hash) (m : Nat), Good ar db₀ g₀ s →
+    ∀ (chain : List (Hash × Hdr)) {s : Em} (P : Hash) (m : Nat), Good ar V db₀ g₀ s →
     Linked s.db P m chain → CanonAgrees s.db P m →
-    Good ar db₀ g₀ (reinsertAll v xTxs chain s) ∧ (reinsertAll v xTxs chain s).head = chainEnd s.head chain ∧
+    Good ar V db₀ g₀ (reinsertAll v xTxs chain s) ∧ (reinsertAll v xTxs chain s).head = chainEnd s.head chain ∧
       TouchesOnly ctl s.db (reinsertAll v xTxs chain s).db := by
   intro chain
   induction chain with
@@ -303,8 +332,8 @@ theorem getBlock_num_unique {db : Db} {h : Hash} {n n' : Nat} {hd hd' : Hdr} (h1
   rw [g1] at g2; injection g2 with g2; injection g2 with _ hn _
   omega
 
-theorem good_delLookups {s : Em} (hg : Good ar db₀ g₀ s) (ts : List Nat) :
-    Good ar db₀ g₀ (s.emitAll (ts.map fun t => Event.del (.lookup t))) ∧
+theorem good_delLookups {s : Em} (hg : Good ar V db₀ g₀ s) (ts : List Nat) :
+    Good ar V db₀ g₀ (s.emitAll (ts.map fun t => Event.del (.lookup t))) ∧
       (s.emitAll (ts.map fun t => Event.del (.lookup t))).head = s.head ∧
       TouchesOnly irrelevant s.db (s.emitAll (ts.map fun t => Event.del (.lookup t))).db := by
   apply good_emitAll_irrelevant _ hg
@@ -319,11 +348,11 @@ theorem canonAgrees_of_irrelevant {db db' : Db} (h : TouchesOnly irrelevant db d
 
 /-- `reorg` with an atomic `insert`, the incoming block already stored: every write keeps the invariant, only control
     keys are touched, and afterwards the incoming block lies on the head's chain -/
-theorem good_reorgW (v : Variant) (hat : v.atomicInsert = true) {s s' : Em} (hg : Good ar db₀ g₀ s) {chd : Hdr} {cn : Nat}
+theorem good_reorgW (v : Variant) (hat : v.atomicInsert = true) {s s' : Em} (hg : Good ar V db₀ g₀ s) {chd : Hdr} {cn : Nat}
     (b : Blk) (hcur : getBlock s.db s.head cn = some chd) (hcn : blockNumber s.db s.head = some cn)
     (hX : getBlock s.db b.hash b.num = some ⟨b.parent, b.num, b.root⟩)
     (h : reorgW v s (s.head, chd) b = some s') :
-    Good ar db₀ g₀ s' ∧ CanonAgrees s'.db b.hash b.num ∧
+    Good ar V db₀ g₀ s' ∧ CanonAgrees s'.db b.hash b.num ∧
       (∀ x n, getBlock s'.db x n = getBlock s.db x n) := by
   unfold reorgW at h
   split at h
@@ -340,7 +369,7 @@ theorem good_reorgW (v : Variant) (hat : v.atomicInsert = true) {s s' : Em} (hg 
     -- after the re-pointing (and the clean-up above the new head) the incoming block is on the head's chain
     have key : ∃ s2 : Em, s2 = (if nc.isEmpty then reinsertAll v (fun h => if h = b.hash then some b.txs else none) nc.reverse s
           else delCanonAbove (chd.num + 2) (reinsertAll v (fun h => if h = b.hash then some b.txs else none) nc.reverse s) (b.num + 1)) ∧
-        Good ar db₀ g₀ s2 ∧ CanonAgrees s2.db b.hash b.num ∧ TouchesOnly ctl s.db s2.db := by
+        Good ar V db₀ g₀ s2 ∧ CanonAgrees s2.db b.hash b.num ∧ TouchesOnly ctl s.db s2.db := by
       cases hnc : nc with
       | nil =>
         subst hnc
@@ -382,15 +411,19 @@ theorem good_reorgW (v : Variant) (hat : v.atomicInsert = true) {s s' : Em} (hg 
 /-! ### WriteBlockWithState -/
 
 /-- what the importer guarantees about a block it hands to `WriteBlockWithState` and about the tries flushed meanwhile -/
-structure ImportOK (ar : Bool) (s : Em) (b : Blk) (flush : List Writes) : Prop where
+structure ImportOK (ar : Bool) (V : Hash → Hdr → Prop) (s : Em) (b : Blk) (flush : List Writes) : Prop where
   flushOK : FlushOK (apply s.db (.put (.td b.hash) .blob)) flush
   fresh : FreshOrSame s.db b
   state : ar = true → hasState ((s.emit (.put (.td b.hash) .blob)).emitAll (flushEventsOf flush)).db b.root = true
   pos : 0 < b.num
   link : ∀ n, blockNumber s.db b.parent = some n → b.num = n + 1
+  /-- the header is one the importer vouches for -/
+  valid : V b.hash ⟨b.parent, b.num, b.root⟩
+  /-- the parent block is stored (insertChain: ErrUnknownAncestor otherwise) -/
+  parent : ∀ m, b.num = m + 1 → ∃ hd', getBlock s.db b.parent m = some hd'
 
-theorem inv_lookup_batch {db : Db} {g : Hash} (hi : Inv ar db g) (h : Hash) (txs : List Nat) :
-    Inv ar (apply db (.batch (lookupWrites h txs))) g ∧ TouchesOnly irrelevant db (apply db (.batch (lookupWrites h txs))) := by
+theorem inv_lookup_batch {db : Db} {g : Hash} (hi : Inv ar V db g) (h : Hash) (txs : List Nat) :
+    Inv ar V (apply db (.batch (lookupWrites h txs))) g ∧ TouchesOnly irrelevant db (apply db (.batch (lookupWrites h txs))) := by
   have ht : TouchesOnly irrelevant db (apply db (.batch (lookupWrites h txs))) := by
     apply touchesOnly_batch
     intro w hw
@@ -399,17 +432,24 @@ theorem inv_lookup_batch {db : Db} {g : Hash} (hi : Inv ar db g) (h : Hash) (txs
     rfl
   exact ⟨inv_of_same hi ht, ht⟩
 
-theorem good_writeBlock (v : Variant) {s : Em} (hg : Good ar db₀ g₀ s) (b : Blk) (canon : Bool) (flush : List Writes)
-    (hok : ImportOK ar s b flush)
+theorem good_writeBlock (v : Variant) {s : Em} (hg : Good ar V db₀ g₀ s) (b : Blk) (canon : Bool) (flush : List Writes)
+    (hok : ImportOK ar V s b flush)
     (hv : (v.atomicInsert = true ∧ v.batchFirst = true) ∨ (canon = true → b.parent = s.head)) :
-    Good ar db₀ g₀ (writeBlock v s b canon flush) := by
+    Good ar V db₀ g₀ (writeBlock v s b canon flush) := by
   -- td, flushes
-  have g1 : Good ar db₀ g₀ (s.emit (.put (.td b.hash) .blob)) := good_emit hg _ (inv_put_irrelevant hg.inv _ rfl)
-  have t1 : TouchesOnly irrelevant s.db (s.emit (.put (.td b.hash) .blob)).db := touchesOnly_put _ _ rfl
+  have g1 : Good ar V db₀ g₀ (s.emit (.put (.td b.hash) .blob)) := good_emit hg _ (inv_put_td hg.inv _ _)
+  have t1 : TouchesOnly isTd s.db (s.emit (.put (.td b.hash) .blob)).db := touchesOnly_put _ _ rfl
   obtain ⟨g2, h2, t2, _⟩ := good_flush flush g1 hok.flushOK
-  have same2 : ∀ k, irrelevant k = false → isTrieKey k = false →
+  have same2 : ∀ k, isTd k = false → isTrieKey k = false →
       get ((s.emit (.put (.td b.hash) .blob)).emitAll (flushEventsOf flush)).db k = get s.db k :=
     fun k h1 h2' => by rw [t2 k h2', t1 k h1]
+  have hblk2 : ∀ x n, getBlock ((s.emit (.put (.td b.hash) .blob)).emitAll (flushEventsOf flush)).db x n = getBlock s.db x n :=
+    fun x n => getBlock_congr (same2 _ rfl rfl) (same2 _ rfl rfl) n
+  have hpar2 : ∀ m, b.num = m + 1 →
+      ∃ hd', getBlock ((s.emit (.put (.td b.hash) .blob)).emitAll (flushEventsOf flush)).db b.parent m = some hd' :=
+    fun m hm => by rw [hblk2]; exact hok.parent m hm
+  have htd2 : (get ((s.emit (.put (.td b.hash) .blob)).emitAll (flushEventsOf flush)).db (.td b.hash)).isSome = true := by
+    rw [t2 _ rfl]; simp [apply, get_put]
   have hfresh2 : FreshOrSame ((s.emit (.put (.td b.hash) .blob)).emitAll (flushEventsOf flush)).db b := by
     unfold FreshOrSame
     rw [same2 _ rfl rfl, same2 _ rfl rfl]
@@ -423,7 +463,7 @@ theorem good_writeBlock (v : Variant) {s : Em} (hg : Good ar db₀ g₀ s) (b : 
   cases canon with
   | false =>
     simp only [Bool.not_false, if_true]
-    have := (inv_block_batch g2.inv b [] (by simp) hfresh2 hok.state).1
+    have := (inv_block_batch g2.inv b [] (by simp) hfresh2 hok.state hok.valid hpar2 htd2).1
     rw [List.append_nil] at this
     exact good_emit g2 _ this
   | true =>
@@ -433,7 +473,7 @@ theorem good_writeBlock (v : Variant) {s : Em} (hg : Good ar db₀ g₀ s) (b : 
       rename_i hpar
       rw [hhead2] at hpar
       obtain ⟨i3, hX3, _, hnum3⟩ := inv_block_batch g2.inv b (lookupWrites b.hash b.txs)
-        (by intro w hw; simp only [lookupWrites, List.mem_map] at hw; obtain ⟨t, _, rfl⟩ := hw; rfl) hfresh2 hok.state
+        (by intro w hw; simp only [lookupWrites, List.mem_map] at hw; obtain ⟨t, _, rfl⟩ := hw; rfl) hfresh2 hok.state hok.valid hpar2 htd2
       have g3 := good_emit g2 _ i3
       obtain ⟨n, hn, hc⟩ := hg.inv.chain
       have hbn : b.num = n + 1 := hok.link n (by rw [hpar]; exact hn)
@@ -458,7 +498,7 @@ theorem good_writeBlock (v : Variant) {s : Em} (hg : Good ar db₀ g₀ s) (b : 
           · exact g2
           · rename_i chd hcur
             simp only [hbf, Bool.not_true, Bool.false_eq_true, if_false]
-            obtain ⟨i3, hX3, hblk3, hnum3⟩ := inv_block_batch g2.inv b [] (by simp) hfresh2 hok.state
+            obtain ⟨i3, hX3, hblk3, hnum3⟩ := inv_block_batch g2.inv b [] (by simp) hfresh2 hok.state hok.valid hpar2 htd2
             rw [List.append_nil] at i3 hX3 hblk3 hnum3
             have g3 := good_emit g2 (.batch (blockData b)) i3
             split
@@ -485,13 +525,16 @@ theorem get_hashNum_of_blockNumber {db : Db} {h : Hash} {n : Nat} (hn : blockNum
   · simp at hn
 
 /-- the keys of block `b` change towards "stored" (never away from it, never to another content) -/
-theorem inv_block_keys {db db' : Db} {g : Hash} (hi : Inv false db g) (b : Blk) (hf : FreshOrSame db b)
+theorem inv_block_keys {db db' : Db} {g : Hash} (hi : Inv false V db g) (b : Blk) (hf : FreshOrSame db b)
     (ha : ∀ k, k ≠ .body b.hash → k ≠ .hashNum b.hash → k ≠ .header b.hash → irrelevant k = false → get db' k = get db k)
     (hb : (get db (.body b.hash)).isSome = true → (get db' (.body b.hash)).isSome = true)
     (hc : get db' (.hashNum b.hash) = get db (.hashNum b.hash) ∨ get db' (.hashNum b.hash) = some (.num b.num))
     (hd : get db' (.header b.hash) = get db (.header b.hash) ∨
-      (get db' (.header b.hash) = some (.hdr b.parent b.num b.root) ∧ get db' (.hashNum b.hash) = some (.num b.num))) :
-    Inv false db' g := by
+      (get db' (.header b.hash) = some (.hdr b.parent b.num b.root) ∧ get db' (.hashNum b.hash) = some (.num b.num)))
+    (hV : V b.hash ⟨b.parent, b.num, b.root⟩)
+    (hpar : ∀ m, b.num = m + 1 → ∃ hd', getBlock db b.parent m = some hd')
+    (htdX : (get db (.td b.hash)).isSome = true) :
+    Inv false V db' g ∧ (∀ h n hd, getBlock db h n = some hd → getBlock db' h n = some hd) := by
   have gHdr : ∀ h, h ≠ b.hash → get db' (.header h) = get db (.header h) := fun h e =>
     ha _ (by intro e'; cases e') (by intro e'; cases e') (by intro e'; injection e' with e'; exact e e') rfl
   have gBody : ∀ h, h ≠ b.hash → get db' (.body h) = get db (.body h) := fun h e =>
@@ -549,8 +592,52 @@ theorem inv_block_keys {db db' : Db} {g : Hash} (hi : Inv false db g) (b : Blk) 
     gOther _ (by intro _ e; cases e) (by intro _ e; cases e) (by intro _ e; cases e) rfl
   have hArch : false = true → ∀ h n hd, getBlock db' h n = some hd → hasState db' hd.root = true := by
     intro e; cases e
-  refine ⟨?_, ⟨n, hNumSame _ _ hn, canonAgrees_mono hBlkMono hcn (fun k _ => gCanon k)⟩, ?_,
-    ⟨g0, hd0, by rw [gCanon]; exact hc0, hBlkMono _ _ _ hb0, by unfold hasState; rw [gNode]; exact hs0⟩, hArch, ?_⟩
+  have gTd : ∀ h, get db' (.td h) = get db (.td h) := fun h =>
+    gOther _ (by intro _ e; cases e) (by intro _ e; cases e) (by intro _ e; cases e) rfl
+  -- the header of block `b` in the new image always has b's content
+  have hXhdr : ∀ m hd', getHeader db' b.hash m = some hd' → hd' = ⟨b.parent, b.num, b.root⟩ ∧ m = b.num := by
+    intro m hd' hh
+    obtain ⟨hg, hm⟩ := getHeader_eq hh
+    have hcont : get db' (.header b.hash) = some (.hdr b.parent b.num b.root) := by
+      rcases hd with h0 | ⟨h0, _⟩
+      · rw [h0] at hg ⊢
+        rcases hf.1 with h1 | h1
+        · rw [h1] at hg; cases hg
+        · exact h1
+      · exact h0
+    rw [hcont] at hg; injection hg with hg; injection hg with e1 e2 e3
+    refine ⟨?_, by omega⟩
+    cases hd'; simp_all
+  have hBlkInv : ∀ h m hd', getBlock db' h m = some hd' →
+      (h = b.hash ∧ hd' = ⟨b.parent, b.num, b.root⟩ ∧ m = b.num) ∨ getBlock db h m = some hd' := by
+    intro h m hd' hbk
+    by_cases e : h = b.hash
+    · subst e
+      obtain ⟨h1, h2⟩ := hXhdr m hd' (getBlock_header hbk)
+      exact .inl ⟨rfl, h1, h2⟩
+    · rw [getBlock_congr (gHdr h e) (gBody h e)] at hbk
+      exact .inr hbk
+  have hExt : Ext V db' := by
+    refine ⟨?_, ?_, ?_⟩
+    · intro h m hd' hh
+      by_cases e : h = b.hash
+      · subst e
+        rw [(hXhdr m hd' hh).1]; exact hV
+      · rw [getHeader_congr (gHdr h e)] at hh
+        exact hi.ext.valid h m hd' hh
+    · intro h m hd' hbk
+      rcases hBlkInv h (m + 1) hd' hbk with ⟨_, rfl, hm⟩ | hb'
+      · obtain ⟨p', h'⟩ := hpar m hm.symm
+        exact ⟨p', hBlkMono _ _ _ h'⟩
+      · obtain ⟨p', h'⟩ := hi.ext.pclosed h m hd' hb'
+        exact ⟨p', hBlkMono _ _ _ h'⟩
+    · intro h m hd' hbk
+      rw [gTd]
+      rcases hBlkInv h m hd' hbk with ⟨rfl, _, _⟩ | hb'
+      · exact htdX
+      · exact hi.ext.storedTd h m hd' hb'
+  refine ⟨⟨hExt, ?_, ⟨n, hNumSame _ _ hn, canonAgrees_mono hBlkMono hcn (fun k _ => gCanon k)⟩, ?_,
+    ⟨g0, hd0, by rw [gCanon]; exact hc0, hBlkMono _ _ _ hb0, by unfold hasState; rw [gNode]; exact hs0⟩, hArch, ?_⟩, hBlkMono⟩
   · rw [headPtr_congr (gOther _ (by intro _ e; cases e) (by intro _ e; cases e) (by intro _ e; cases e) rfl)]; exact hi.head
   · intro x cs hg c hcm
     rw [gNode] at hg ⊢
@@ -567,20 +654,31 @@ theorem inv_block_keys {db db' : Db} {g : Hash} (hi : Inv false db g) (b : Blk) 
     · rw [getHeader_congr (gHdr h e)] at hh
       exact hNumSame _ _ (hi.hnum h m hd' hh)
 
-theorem good_sideNoState {s : Em} (hg : Good false db₀ g₀ s) (b : Blk) (hf : FreshOrSame s.db b) :
-    Good false db₀ g₀ ((s.emit (.put (.td b.hash) .blob)).emitAll
+theorem good_sideNoState {s : Em} (hg : Good false V db₀ g₀ s) (b : Blk) (hf : FreshOrSame s.db b)
+    (hV : V b.hash ⟨b.parent, b.num, b.root⟩)
+    (hpar : ∀ m, b.num = m + 1 → ∃ hd', getBlock s.db b.parent m = some hd') :
+    Good false V db₀ g₀ ((s.emit (.put (.td b.hash) .blob)).emitAll
       [.put (.body b.hash) (.txs b.txs), .put (.hashNum b.hash) (.num b.num), .put (.header b.hash) (.hdr b.parent b.num b.root)]) := by
-  have g1 : Good false db₀ g₀ (s.emit (.put (.td b.hash) .blob)) := good_emit hg _ (inv_put_irrelevant hg.inv _ rfl)
+  have g1 : Good false V db₀ g₀ (s.emit (.put (.td b.hash) .blob)) := good_emit hg _ (inv_put_td hg.inv _ _)
   have f1 : FreshOrSame (s.emit (.put (.td b.hash) .blob)).db b := by
     unfold FreshOrSame
     rw [emit_db]
     show (get (put s.db _ _) _ = none ∨ _) ∧ (get (put s.db _ _) _ = none ∨ _)
     rw [get_put_ne _ _ (by intro e; cases e), get_put_ne _ _ (by intro e; cases e)]
     exact hf
+  have p1 : ∀ m, b.num = m + 1 → ∃ hd', getBlock (s.emit (.put (.td b.hash) .blob)).db b.parent m = some hd' := by
+    intro m hm
+    obtain ⟨hd', h'⟩ := hpar m hm
+    refine ⟨hd', ?_⟩
+    rw [emit_db]
+    show getBlock (put s.db _ _) _ _ = _
+    rw [getBlock_congr (get_put_ne _ _ (by intro e; cases e)) (get_put_ne _ _ (by intro e; cases e))]
+    exact h'
+  have t1 : (get (s.emit (.put (.td b.hash) .blob)).db (.td b.hash)).isSome = true := by simp [apply, get_put]
   -- body
-  have i2 : Inv false (apply (s.emit (.put (.td b.hash) .blob)).db (.put (.body b.hash) (.txs b.txs))) s.head :=
-    inv_block_keys g1.inv b f1 (fun k h1 _ _ _ => get_put_ne _ _ (Ne.symm h1)) (fun _ => by simp [apply, get_put])
-      (Or.inl (get_put_ne _ _ (by intro e; cases e))) (Or.inl (get_put_ne _ _ (by intro e; cases e)))
+  obtain ⟨i2, m2⟩ := inv_block_keys g1.inv b f1 (db' := apply (s.emit (.put (.td b.hash) .blob)).db (.put (.body b.hash) (.txs b.txs)))
+    (fun k h1 _ _ _ => get_put_ne _ _ (Ne.symm h1)) (fun _ => by simp [apply, get_put])
+    (Or.inl (get_put_ne _ _ (by intro e; cases e))) (Or.inl (get_put_ne _ _ (by intro e; cases e))) hV p1 t1
   have g2 := good_emit g1 _ i2
   have f2 : FreshOrSame ((s.emit (.put (.td b.hash) .blob)).emit (.put (.body b.hash) (.txs b.txs))).db b := by
     unfold FreshOrSame
@@ -588,13 +686,20 @@ theorem good_sideNoState {s : Em} (hg : Good false db₀ g₀ s) (b : Blk) (hf :
     show (get (put _ _ _) _ = none ∨ _) ∧ (get (put _ _ _) _ = none ∨ _)
     rw [get_put_ne _ _ (by intro e; cases e), get_put_ne _ _ (by intro e; cases e)]
     exact f1
+  have p2 : ∀ m, b.num = m + 1 →
+      ∃ hd', getBlock ((s.emit (.put (.td b.hash) .blob)).emit (.put (.body b.hash) (.txs b.txs))).db b.parent m = some hd' :=
+    fun m hm => by obtain ⟨hd', h'⟩ := p1 m hm; exact ⟨hd', m2 _ _ _ h'⟩
+  have t2 : (get ((s.emit (.put (.td b.hash) .blob)).emit (.put (.body b.hash) (.txs b.txs))).db (.td b.hash)).isSome = true := by
+    rw [emit_db]
+    show (get (put _ _ _) _).isSome = true
+    rw [get_put_ne _ _ (by intro e; cases e)]; exact t1
   -- hash → number
-  have i3 : Inv false (apply ((s.emit (.put (.td b.hash) .blob)).emit (.put (.body b.hash) (.txs b.txs))).db
-      (.put (.hashNum b.hash) (.num b.num))) s.head :=
-    inv_block_keys g2.inv b f2 (fun k _ h2 _ _ => get_put_ne _ _ (Ne.symm h2)) (fun h => by
+  obtain ⟨i3, m3⟩ := inv_block_keys g2.inv b f2
+    (db' := apply ((s.emit (.put (.td b.hash) .blob)).emit (.put (.body b.hash) (.txs b.txs))).db (.put (.hashNum b.hash) (.num b.num)))
+    (fun k _ h2 _ _ => get_put_ne _ _ (Ne.symm h2)) (fun h => by
         show (get (put _ _ _) _).isSome = true
         rw [get_put_ne _ _ (by intro e; cases e)]; exact h)
-      (Or.inr (by simp [apply, get_put])) (Or.inl (get_put_ne _ _ (by intro e; cases e)))
+      (Or.inr (by simp [apply, get_put])) (Or.inl (get_put_ne _ _ (by intro e; cases e))) hV p2 t2
   have g3 := good_emit g2 _ i3
   have f3 : FreshOrSame (((s.emit (.put (.td b.hash) .blob)).emit (.put (.body b.hash) (.txs b.txs))).emit
       (.put (.hashNum b.hash) (.num b.num))).db b := by
@@ -602,42 +707,52 @@ theorem good_sideNoState {s : Em} (hg : Good false db₀ g₀ s) (b : Blk) (hf :
     rw [emit_db]
     show (get (put _ _ _) _ = none ∨ _) ∧ (get (put _ _ _) _ = none ∨ _)
     exact ⟨by rw [get_put_ne _ _ (by intro e; cases e)]; exact f2.1, Or.inr (get_put_same _ _ _)⟩
+  have p3 : ∀ m, b.num = m + 1 → ∃ hd', getBlock (((s.emit (.put (.td b.hash) .blob)).emit (.put (.body b.hash) (.txs b.txs))).emit
+      (.put (.hashNum b.hash) (.num b.num))).db b.parent m = some hd' :=
+    fun m hm => by obtain ⟨hd', h'⟩ := p2 m hm; exact ⟨hd', m3 _ _ _ h'⟩
+  have t3 : (get (((s.emit (.put (.td b.hash) .blob)).emit (.put (.body b.hash) (.txs b.txs))).emit
+      (.put (.hashNum b.hash) (.num b.num))).db (.td b.hash)).isSome = true := by
+    rw [emit_db]
+    show (get (put _ _ _) _).isSome = true
+    rw [get_put_ne _ _ (by intro e; cases e)]; exact t2
   -- header
-  have i4 : Inv false (apply (((s.emit (.put (.td b.hash) .blob)).emit (.put (.body b.hash) (.txs b.txs))).emit
-      (.put (.hashNum b.hash) (.num b.num))).db (.put (.header b.hash) (.hdr b.parent b.num b.root))) s.head :=
-    inv_block_keys g3.inv b f3 (fun k _ _ h3 _ => get_put_ne _ _ (Ne.symm h3)) (fun h => by
+  obtain ⟨i4, _⟩ := inv_block_keys g3.inv b f3
+    (db' := apply (((s.emit (.put (.td b.hash) .blob)).emit (.put (.body b.hash) (.txs b.txs))).emit
+      (.put (.hashNum b.hash) (.num b.num))).db (.put (.header b.hash) (.hdr b.parent b.num b.root)))
+    (fun k _ _ h3 _ => get_put_ne _ _ (Ne.symm h3)) (fun h => by
         show (get (put _ _ _) _).isSome = true
         rw [get_put_ne _ _ (by intro e; cases e)]; exact h)
       (Or.inl (get_put_ne _ _ (by intro e; cases e)))
       (Or.inr ⟨by simp [apply, get_put], by
         show get (put _ _ _) _ = _
         rw [get_put_ne _ _ (by intro e; cases e)]
-        simp [apply, get_put]⟩)
+        simp [apply, get_put]⟩) hV p3 t3
   exact good_emit g3 _ i4
 
 /-! ### whole histories -/
 
 /-- validity of a step in the current state (what `insertChain` guarantees before it calls the writers) -/
-def StepOK (ar : Bool) (v : Variant) (s : Em) : Step → Prop
+def StepOK (ar : Bool) (V : Hash → Hdr → Prop) (v : Variant) (s : Em) : Step → Prop
   | .importBlock b canon flush =>
-    ImportOK ar s b flush ∧ ((v.atomicInsert = true ∧ v.batchFirst = true) ∨ (canon = true → b.parent = s.head))
-  | .sideNoState b => ar = false ∧ FreshOrSame s.db b
+    ImportOK ar V s b flush ∧ ((v.atomicInsert = true ∧ v.batchFirst = true) ∨ (canon = true → b.parent = s.head))
+  | .sideNoState b => ar = false ∧ FreshOrSame s.db b ∧ V b.hash ⟨b.parent, b.num, b.root⟩ ∧
+      (∀ m, b.num = m + 1 → ∃ hd', getBlock s.db b.parent m = some hd')
   | .stop flush => FlushOK s.db flush
   | .setHead _ => False          -- outside the property's quantifier (import, reorganisation, shutdown)
   | .opened => True
 
-def StepsOK (ar : Bool) (v : Variant) : Em → List Step → Prop
+def StepsOK (ar : Bool) (V : Hash → Hdr → Prop) (v : Variant) : Em → List Step → Prop
   | _, [] => True
-  | s, st :: rest => StepOK ar v s st ∧ StepsOK ar v (step v s st) rest
+  | s, st :: rest => StepOK ar V v s st ∧ StepsOK ar V v (step v s st) rest
 
-theorem good_step (v : Variant) {s : Em} (hg : Good ar db₀ g₀ s) (st : Step) (hok : StepOK ar v s st) :
-    Good ar db₀ g₀ (step v s st) := by
+theorem good_step (v : Variant) {s : Em} (hg : Good ar V db₀ g₀ s) (st : Step) (hok : StepOK ar V v s st) :
+    Good ar V db₀ g₀ (step v s st) := by
   cases st with
   | importBlock b canon flush => exact good_writeBlock v hg b canon flush hok.1 hok.2
   | sideNoState b =>
-    obtain ⟨har, hf⟩ := hok
+    obtain ⟨har, hf, hV, hp⟩ := hok
     subst har
-    exact good_sideNoState hg b hf
+    exact good_sideNoState hg b hf hV hp
   | stop flush => exact (good_flush flush hg hok).1
   | setHead n => exact absurd hok (by simp [StepOK])
   | opened =>
@@ -646,20 +761,28 @@ theorem good_step (v : Variant) {s : Em} (hg : Good ar db₀ g₀ s) (st : Step)
     refine good_hhdr (good_emit hg (.put .lastHeader _) ?_) _
     exact inv_put_irrelevant hg.inv _ rfl
 
-theorem good_steps (v : Variant) : ∀ (steps : List Step) {s : Em}, Good ar db₀ g₀ s → StepsOK ar v s steps →
-    Good ar db₀ g₀ (steps.foldl (step v) s) := by
+theorem good_steps (v : Variant) : ∀ (steps : List Step) {s : Em}, Good ar V db₀ g₀ s → StepsOK ar V v s steps →
+    Good ar V db₀ g₀ (steps.foldl (step v) s) := by
   intro steps
   induction steps with
   | nil => intro s hg _; exact hg
   | cons st rest ih => intro s hg hok; exact ih (good_step v hg st hok.1) hok.2
 
-theorem good_init {db : Db} {g : Hash} (hi : Inv ar db g) : Good ar db g { db := db, head := g, hhdr := g } :=
-  ⟨by simp [TraceOK]; exact imageOK_of_inv hi, rfl, rfl, hi⟩
+theorem good_init {db : Db} {g : Hash} (hi : Inv ar V db g) : Good ar V db g { db := db, head := g, hhdr := g } :=
+  ⟨fun p hp => by
+      have : p = [] := List.prefix_nil.mp hp
+      subst this; exact hi, rfl, rfl, hi⟩
 
 /-- every prefix of the write log of a valid history satisfies the discipline -/
-theorem writeLog_traceOK (v : Variant) {db : Db} {g : Hash} (hi : Inv ar db g) (steps : List Step)
-    (hok : StepsOK ar v { db := db, head := g, hhdr := g } steps) : TraceOK ar db g (writeLog v db g steps) = true :=
+theorem writeLog_traceOK (v : Variant) {db : Db} {g : Hash} (hi : Inv ar V db g) (steps : List Step)
+    (hok : StepsOK ar V v { db := db, head := g, hhdr := g } steps) : TraceOK ar db g (writeLog v db g steps) = true :=
   (good_steps v steps (good_init hi) hok).trace
+
+/-- every prefix of the write log of a valid history is an image that satisfies the invariant (with its ghost head) -/
+theorem writeLog_allInv (v : Variant) {db : Db} {g : Hash} (hi : Inv ar V db g) (steps : List Step)
+    (hok : StepsOK ar V v { db := db, head := g, hhdr := g } steps) :
+    ∀ p, p <+: writeLog v db g steps → Inv ar V (applyAll db (p.map (·.1))) (ghostAt g p) :=
+  (good_steps v steps (good_init hi) hok).all
 
 /-! ### a decidable sufficient check for `Inv` (used for concrete instances) -/
 
@@ -674,27 +797,50 @@ def invB (ar : Bool) (db : Db) (g : Hash) : Bool :=
     match e.1 with
     | .header h =>
       match get db (.header h) with
-      | some (.hdr _ n r) => (blockNumber db h == some n) && (!ar || !(get db (.body h)).isSome || hasState db r)
+      | some (.hdr p n r) => (blockNumber db h == some n) && (!ar || !(get db (.body h)).isSome || hasState db r) &&
+          (!(get db (.body h)).isSome ||
+            ((get db (.td h)).isSome && (n == 0 || (getBlock db p (n - 1)).isSome)))
       | _ => true
     | _ => true
 
-theorem invB_sound {ar : Bool} {db : Db} {g : Hash} (h : invB ar db g = true) : Inv ar db g := by
+theorem invB_sound {ar : Bool} {db : Db} {g : Hash} (h : invB ar db g = true) : Inv ar (fun _ _ => True) db g := by
   unfold invB at h
   simp only [Bool.and_eq_true, beq_iff_eq] at h
   obtain ⟨⟨⟨⟨h1, h2⟩, h3⟩, h4⟩, h5⟩ := h
   have hdr : ∀ x n hd, getHeader db x n = some hd →
-      blockNumber db x = some n ∧ (ar = true → (get db (.body x)).isSome = true → hasState db hd.root = true) := by
+      blockNumber db x = some n ∧ (ar = true → (get db (.body x)).isSome = true → hasState db hd.root = true) ∧
+      ((get db (.body x)).isSome = true → (get db (.td x)).isSome = true ∧
+        (n = 0 ∨ (getBlock db hd.parent (n - 1)).isSome = true)) := by
     intro x n hd hh
     obtain ⟨hg, hn⟩ := getHeader_eq hh
     obtain ⟨v', hv'⟩ := mem_keys_of_get hg
     have := (List.all_eq_true.mp h5) _ hv'
     simp only [hg, Bool.and_eq_true, beq_iff_eq, Bool.or_eq_true, Bool.not_eq_true'] at this
-    refine ⟨by rw [← hn]; exact this.1, fun har hb => ?_⟩
-    rcases this.2 with (h0 | h0) | h0
-    · rw [har] at h0; cases h0
-    · rw [hb] at h0; cases h0
-    · exact h0
-  refine ⟨h1, ?_, (closedB_iff db).mp h3, ?_, ?_, fun x n hd hh => (hdr x n hd hh).1⟩
+    refine ⟨by rw [← hn]; exact this.1.1, fun har hb => ?_, fun hb => ?_⟩
+    · rcases this.1.2 with (h0 | h0) | h0
+      · rw [har] at h0; cases h0
+      · rw [hb] at h0; cases h0
+      · exact h0
+    · rcases this.2 with h0 | h0
+      · rw [hb] at h0; cases h0
+      · rw [← hn]; exact h0
+  have hbody : ∀ x n hd, getBlock db x n = some hd → (get db (.body x)).isSome = true := by
+    intro x n hd hb
+    unfold getBlock at hb
+    split at hb
+    · split at hb
+      · assumption
+      · simp at hb
+    · simp at hb
+  have hext : Ext (fun _ _ => True) db := by
+    refine ⟨fun _ _ _ _ => trivial, ?_, ?_⟩
+    · intro x n hd hb
+      rcases ((hdr x (n + 1) hd (getBlock_header hb)).2.2 (hbody _ _ _ hb)).2 with h0 | h0
+      · omega
+      · exact Option.isSome_iff_exists.mp (by simpa using h0)
+    · intro x n hd hb
+      exact ((hdr x n hd (getBlock_header hb)).2.2 (hbody _ _ _ hb)).1
+  refine ⟨hext, h1, ?_, (closedB_iff db).mp h3, ?_, ?_, fun x n hd hh => (hdr x n hd hh).1⟩
   · split at h2
     · rename_i n hn; exact ⟨n, hn, canonAgrees_of_chainOK _ _ _ h2⟩
     · cases h2
@@ -705,12 +851,6 @@ theorem invB_sound {ar : Bool} {db : Db} {g : Hash} (h : invB ar db g = true) : 
       · cases h4
     · cases h4
   · intro har x n hd hb
-    refine (hdr x n hd (getBlock_header hb)).2 har ?_
-    unfold getBlock at hb
-    split at hb
-    · split at hb
-      · assumption
-      · simp at hb
-    · simp at hb
+    exact (hdr x n hd (getBlock_header hb)).2.1 har (hbody _ _ _ hb)
 
 end Aqv.ChainDb
